@@ -80,10 +80,13 @@ CHECKS = {
          "Byte strings (generated, seeded, mutated) through Valid/Compact/Indent/HTMLEscape/Unmarshal; Go types over a 70-leaf pool (basic and named kinds, Number, RawMessage, time, JSON/text methods on value and pointer receivers, embedding shapes, fold conflicts) x tags (name, omitempty, omitzero, string, -) x maps keyed by string/integer/text types: Marshal/MarshalIndent/Encoder outputs must be byte-identical, Unmarshal/Decoder (UseNumber, DisallowUnknownFields, zero and pre-populated targets) must fail together and give deeply equal values, syntactically invalid input must leave the v1 target untouched; Decoder scripts over Token/Decode/More/InputOffset with chunked readers. Divergences of this tree that are not repaired are known findings F8, F21, F22, F24, F25, each matched by its own cause; anything else is a violation.",
          "oracle: the encoding/json of the toolchain the repository is tested with (go1.26.0), same process, same Go values; domain restricted to types both packages can handle in the exercised direction; not compared: error text, targets after semantic errors, sentinel identity on damaged streams",
          "DESIGN.md §4 C09"),
+ "C18": ("exploration", "Go race detector (go build -race, log files scanned) + golden-result monitor: every call of a ~920-entry catalogue is compared with its result from fresh processes in seeded sequential and 16-goroutine concurrent histories; returned slices, decoded strings and error values are re-hashed after later calls and after the caller scribbled over its input; pool hooks poison recycled buffers and assert fresh state",
+         "A catalogue of deterministic call closures over every public entry point (Marshal/MarshalWrite/MarshalEncode, Unmarshal/UnmarshalRead/UnmarshalDecode, Format family, token-level coders, v1) x option sets x failing and panicking user code x 64 KiB / 1 MiB / depth-1500 / depth-10001 data, first use of fresh types, shared Marshalers and shared option arrays passed as sub-slices. Golden results come from fresh processes (quick: 2 x 24 processes running the calls in opposite orders, cross-checked; thorough: one process per call). 8 worker shards run under the race detector, 8 in the plain build (about 16x cheaper here); half of the workers have the process-wide format-tag switch on. Every op in every history must equal its golden result (map output without Deterministic modulo member order), everything handed back must hash the same at the end of the history, any DATA RACE report is a violation, and a planted race must be reported at the start of each run (otherwise inconclusive).",
+         "trusted base: the Go race detector; golden results from the same build in fresh processes; on a failing writer only the error is part of the result (C07 promises just a prefix)",
+         "DESIGN.md §4 C18, §7.1"),
 }
 
 NOT_YET = {
- "C18": "monitor built (cmd/c18, race build) but too slow and not yet silent on the unchanged tree; not claimed until then",
 }
 
 def main():
